@@ -58,7 +58,7 @@ def warm():
 
 def sizes(tier):
     if tier == "thorough":
-        return {"runs": 25000, "block": 100, "det": 64, "det_fresh": 8, "timeout": 6500, "order": 1500}
+        return {"runs": 8000, "block": 50, "det": 64, "det_fresh": 8, "timeout": 6500, "order": 600}
     return {"runs": 1600, "block": 25, "det": 24, "det_fresh": 6, "timeout": 900, "order": 200}
 
 
